@@ -1,7 +1,8 @@
 """Signal corpus for the bounded pipeline jobs: the families named in C01's quantifier, seeded."""
 import numpy as np
 
-FAMILIES = ['sine', 'asym', 'bursty', 'noise1f', 'sum', 'chirp', 'quantised', 'clipped', 'zeroed', 'dc', 'scaled']
+FAMILIES = ['sine', 'asym', 'bursty', 'noise1f', 'sum', 'chirp', 'quantised', 'clipped', 'zeroed', 'dc', 'scaled',
+            'slowdrift']
 
 
 def make_signal(family, seed, n=1500, fs=500.0, f=10.0):
@@ -39,6 +40,9 @@ def make_signal(family, seed, n=1500, fs=500.0, f=10.0):
         sig = base + 0.15 * rng.randn(n) + 7.5
     elif family == 'scaled':
         sig = (base + 0.1 * rng.randn(n)) * 10.0 ** rng.randint(-3, 4)
+    elif family == 'slowdrift':
+        # out-of-band content dominating the rhythm: raw peaks below adjacent raw troughs (negative flank voltages)
+        sig = base + 25.0 * np.sin(2 * np.pi * 0.7 * t + 0.3 + ph)
     else:
         raise ValueError(family)
     return np.ascontiguousarray(sig, dtype=float)
